@@ -14,7 +14,7 @@ import (
 
 func init() {
 	simrt.Register(&simrt.Scenario{
-		Prop: "C08", Name: "long-streams", Count: tiered(400, 20000),
+		Prop: "C08", Name: "long-streams", Count: tiered(1200, 20000),
 		Run: c08Run, MaxOps: 8 << 20, Horizon: time.Hour,
 		Doc: "two real Machines after an XX or KK handshake; 0..5000 records per direction (up to 10 key rotations), directions interleaved by the tape, sizes incl. 0 and 65535, equal and distinct plaintexts; white-box (key, nonce) freshness, ciphertext distinctness, exact decryption, no plaintext / auth payload on the recorded wire",
 	})
@@ -54,6 +54,9 @@ func c08Run(rc *simrt.RunCtx) {
 		seenKN  map[knKey]int
 		seenCT  map[string]int
 		firstSg int
+		pending       []byte
+		pendingBefore knKey
+		hasPending    bool
 	}
 	dA := &dir{name: "initiator->responder", w: s.cli.conn.noise, r: s.srv.conn.noise, wc: s.ca, rc: s.cb, total: nA, seenKN: map[knKey]int{}, seenCT: map[string]int{}}
 	dB := &dir{name: "responder->initiator", w: s.srv.conn.noise, r: s.cli.conn.noise, wc: s.cb, rc: s.ca, total: nB, seenKN: map[knKey]int{}, seenCT: map[string]int{}}
@@ -83,6 +86,47 @@ func c08Run(rc *simrt.RunCtx) {
 		return marker(tag+1000, size)
 	}
 	rotations := 0
+	split := rc.Pick(2, "wl.split-write-flush") == 1
+	var finish func(d *dir, p []byte, before knKey) bool
+	finish = func(d *dir, p []byte, before knKey) bool {
+			after := knKey{d.w.sendCipher.secretKey, d.w.sendCipher.nonce}
+		if after == before {
+			rc.Violate("c08.nonce-reuse", "state-not-advanced", "%s: cipher state (key, nonce=%d) unchanged by record %d", d.name, before.nonce, d.written)
+			return false
+		}
+		if after.key != before.key {
+			rotations++
+		}
+		ct := recordBytes(d.wc.out, d.firstSg, d.written)
+		// nothing the application said may be visible in the record
+		if len(p) >= 16 && (len(p) < 4096 || d.written%3 == 0) && containsWindow(ct, p, 16) {
+			rc.Violate("c08.plaintext-on-wire", "application-plaintext", "%s: a 16-byte window of plaintext record %d appears in its wire record", d.name, d.written)
+			return false
+		}
+		if containsWindow(ct, s.auth, 16) {
+			rc.Violate("c08.plaintext-on-wire", "auth-payload", "%s: a 16-byte window of the auth payload appears in wire record %d", d.name, d.written)
+			return false
+		}
+		if j, dup := d.seenCT[string(ct)]; dup {
+			rc.Violate("c08.ciphertext-repeat", "equal-ciphertext", "%s: records %d and %d have identical ciphertext (%d bytes)", d.name, j, d.written, len(ct))
+			return false
+		}
+		if len(ct) < 200 || d.written%50 == 0 {
+			d.seenCT[string(ct)] = d.written
+		}
+		d.sent = append(d.sent, p)
+		d.written++
+		return true
+	}
+	flush := func(d *dir) bool {
+		p, before := d.pending, d.pendingBefore
+		d.pending = nil
+		if _, err := d.w.Flush(d.wc); err != nil {
+			rc.Violate("c08.write", "flush-error", "%s: Flush #%d: %v", d.name, d.written, err)
+			return false
+		}
+		return finish(d, p, before)
+	}
 	step := func(d *dir, write bool) bool {
 		if write {
 			p := plain(d, d.written)
@@ -96,38 +140,18 @@ func c08Run(rc *simrt.RunCtx) {
 				rc.Violate("c08.write", "write-error", "%s: WriteMessage #%d (%d bytes): %v", d.name, d.written, len(p), err)
 				return false
 			}
+			if split {
+				// the record is flushed by a later move; reads on this
+				// Machine may happen in between
+				d.pending = p
+				d.pendingBefore = before
+				return true
+			}
 			if _, err := d.w.Flush(d.wc); err != nil {
 				rc.Violate("c08.write", "flush-error", "%s: Flush #%d: %v", d.name, d.written, err)
 				return false
 			}
-			after := knKey{d.w.sendCipher.secretKey, d.w.sendCipher.nonce}
-			if after == before {
-				rc.Violate("c08.nonce-reuse", "state-not-advanced", "%s: cipher state (key, nonce=%d) unchanged by record %d", d.name, before.nonce, d.written)
-				return false
-			}
-			if after.key != before.key {
-				rotations++
-			}
-			ct := recordBytes(d.wc.out, d.firstSg, d.written)
-			// nothing the application said may be visible in the record
-			if len(p) >= 16 && (len(p) < 4096 || d.written%3 == 0) && containsWindow(ct, p, 16) {
-				rc.Violate("c08.plaintext-on-wire", "application-plaintext", "%s: a 16-byte window of plaintext record %d appears in its wire record", d.name, d.written)
-				return false
-			}
-			if containsWindow(ct, s.auth, 16) {
-				rc.Violate("c08.plaintext-on-wire", "auth-payload", "%s: a 16-byte window of the auth payload appears in wire record %d", d.name, d.written)
-				return false
-			}
-			if j, dup := d.seenCT[string(ct)]; dup {
-				rc.Violate("c08.ciphertext-repeat", "equal-ciphertext", "%s: records %d and %d have identical ciphertext (%d bytes)", d.name, j, d.written, len(ct))
-				return false
-			}
-			if len(ct) < 200 || d.written%50 == 0 {
-				d.seenCT[string(ct)] = d.written
-			}
-			d.sent = append(d.sent, p)
-			d.written++
-			return true
+			return finish(d, p, before)
 		}
 		got, err := d.r.ReadMessage(d.rc)
 		if err != nil {
@@ -146,8 +170,14 @@ func c08Run(rc *simrt.RunCtx) {
 		var moves []func() bool
 		for _, d := range []*dir{dA, dB} {
 			d := d
-			if d.written < d.total && d.written-d.read < 64 {
-				moves = append(moves, func() bool { return step(d, true) })
+			if d.pending != nil || d.hasPending {
+				moves = append(moves, func() bool { d.hasPending = false; return flush(d) })
+			} else if d.written < d.total && d.written-d.read < 64 {
+				moves = append(moves, func() bool {
+					ok := step(d, true)
+					d.hasPending = ok && split
+					return ok
+				})
 			}
 			if d.read < d.written {
 				moves = append(moves, func() bool { return step(d, false) })
